@@ -30,6 +30,7 @@ type GenesisScenario struct {
 	Nanos       int64  `json:"nanos"`
 	ZoneMin     int    `json:"zone_min"` // offset east of UTC in minutes; 0 = UTC
 	Addr        []byte `json:"addr"`
+	EmptyAddr   bool   `json:"empty_addr,omitempty"`
 	Invalid     string `json:"invalid,omitempty"` // no-chain-id | height-0 | zero-time | no-address
 	ByHand      bool   `json:"by_hand,omitempty"` // invalid file written as JSON text, key omitted / null
 	CutPermille int    `json:"cut_permille,omitempty"`
@@ -87,7 +88,12 @@ func genGenesis(t *rapid.T) GenesisScenario {
 	default:
 		sc.ZoneMin = rapid.IntRange(-12*60, 14*60).Draw(t, "zone")
 	}
-	switch rapid.IntRange(0, 3).Draw(t, "ashape") {
+	switch rapid.IntRange(0, 4).Draw(t, "ashape") {
+	case 4:
+		// an empty but non-nil address: Validate refuses only a nil one, so this is a genesis the node
+		// can write
+		sc.Addr = []byte{}
+		sc.EmptyAddr = true
 	case 0:
 		sc.Addr = rapid.SliceOfN(rapid.Byte(), 20, 20).Draw(t, "addr20")
 	case 1:
@@ -125,7 +131,10 @@ func runGenesis(sc GenesisScenario, tmp string) (v world.Verdict) {
 			v = world.Fail("C18/genesis-panic/"+sc.Mode, "genesis %s %+v panicked: %v", sc.Mode, sc, r)
 		}
 	}()
-	if sc.ChainID == "" || sc.Height == 0 || len(sc.Addr) == 0 || sc.UnixSec < minGenesisSec || sc.UnixSec > maxGenesisSec ||
+	if sc.EmptyAddr {
+		sc.Addr = []byte{}
+	}
+	if sc.ChainID == "" || sc.Height == 0 || (len(sc.Addr) == 0 && !sc.EmptyAddr) || sc.UnixSec < minGenesisSec || sc.UnixSec > maxGenesisSec ||
 		sc.Nanos < 0 || sc.Nanos > 999_999_999 || sc.ZoneMin < -12*60 || sc.ZoneMin > 14*60 {
 		return world.Verdict{Excluded: true}
 	}
